@@ -1442,7 +1442,11 @@ func NewPointFromBytes(b []byte) (Point, error) {
 				return nil, fmt.Errorf("unable to unmarshal field %s: %s", string(iter.FieldKey()), err)
 			}
 		case String:
-			// Skip since this won't return an error
+			// A string value consists of at least its two quotes; anything
+			// shorter would make StringValue slice out of range later on.
+			if v := p.it.valueBuf; len(v) < 2 || v[len(v)-1] != '"' {
+				return nil, fmt.Errorf("unable to unmarshal field %s: unterminated string value", string(iter.FieldKey()))
+			}
 		case Boolean:
 			_, err := iter.BooleanValue()
 			if err != nil {
